@@ -1364,7 +1364,6 @@ class DiskRefsContainer(RefsContainer):
         except (KeyError, IndexError, SymrefLoop):
             realname = name
         filename = self.refpath(realname)
-        packed_refs = self.get_packed_refs()
         self._prepare_loose_ref_path(realname, filename)
         with _lock_loose_ref_file(filename) as f:
             if old_ref is not None:
@@ -1384,7 +1383,9 @@ class DiskRefsContainer(RefsContainer):
             # This avoids fsync when ref is unchanged but still detects lock conflicts
             current_ref = self.read_loose_ref(realname)
             if current_ref is None:
-                current_ref = packed_refs.get(realname, None)
+                # Look at packed-refs as it is now: a pack_refs() since the
+                # lock was requested may have moved the loose value there.
+                current_ref = self.get_packed_refs().get(realname, None)
 
             if current_ref is not None and current_ref == new_ref:
                 # Ref already has desired value, abort write to avoid fsync
